@@ -283,7 +283,35 @@ fn apply_bump<'b>(bump: &'b Bump, st: &mut Option<BString<'b>>, op: &Op, calls: 
             s.extend(ts.iter().map(|t| BString::from_str_in(t, bump)));
             "unit".into()
         }),
+        // `reserve_exact` must honour the same promise (capacity >= len + n is checked by the caller)
+        Op::Reserve(n) if n % 2 == 1 => guard(|| {
+            st.as_mut().unwrap().reserve_exact(*n);
+            "unit".into()
+        }),
         _ => guard(|| {
+            // other spellings of "the same string": conversions that must be identities and views that
+            // must agree (a failure panics here, which the caller reports as a std-panic mismatch)
+            match st.as_ref().unwrap().len() % 4 {
+                1 => {
+                    let bytes = st.take().unwrap().into_bytes();
+                    *st = Some(unsafe { BString::from_utf8_unchecked(bytes) });
+                }
+                2 => {
+                    let mut md = std::mem::ManuallyDrop::new(st.take().unwrap());
+                    let (l, c) = (md.len(), md.capacity());
+                    let p = unsafe { md.as_mut_vec().as_mut_ptr() };
+                    *st = Some(unsafe { BString::from_raw_parts_in(p, l, c, bump) });
+                }
+                3 => {
+                    let s0 = st.as_mut().unwrap();
+                    let a = s0.as_str().as_bytes().to_vec();
+                    let m = s0.as_mut_str().as_bytes().to_vec();
+                    let v = unsafe { s0.as_mut_vec().len() };
+                    assert!(a == m && v == a.len() && a == s0.as_bytes(), "string views disagree");
+                    assert!(std::ptr::eq(s0.bump(), bump), "String::bump() is not the arena it was built in");
+                }
+                _ => {}
+            }
             let s = st.as_mut().unwrap();
             common!(s, op, calls, seen).unwrap_or_else(|| "unsupported".to_string())
         }),
